@@ -123,6 +123,28 @@ def check_chen(cfg, queries, size, levy, rnd, entropy=99, n_triples=8, wrapper="
                         rhs = U1 + U2 + (tb - u) * W1
                         if not _close(U0, rhs, ulps, _scale(U1, U2, U0, (tb - u) * W1) * max(1.0, span)):
                             fails.append(("history_chen_U", dict(s=ta, u=u, t=tb, err=float((U0 - rhs).abs().max()))))
+            # end points that ALMOST coincide with a stored node's (tol = 0 resolves every float): the query [a, b - d],
+            # d = |b| 2**-31, is another interval than [a, b] - additivity must hold across the sliver.  On an object
+            # of its own with the REAL warm-up of 100 queries (with the shortened warm-up of the replays such a short
+            # query is the trigger of known finding K9).
+            if not cfg.Tol and wrapper == "interval":
+                bm2 = B.make_real(cfg, size=size, levy=levy, entropy=entropy, scale_warmup=False)
+                ask2 = _ask_fn(bm2, levy)
+                for ta, tb in tq:
+                    ask2(ta, tb)
+                for ta, tb in list(seen)[:2]:
+                    d = abs(tb) * 2.0 ** -31
+                    if d == 0.0 or not ta < tb - d < tb:
+                        continue
+                    Wa, Ua, _ = ask2(ta, tb)
+                    Wb, Ub, _ = ask2(ta, tb - d)
+                    Wc, Uc, _ = ask2(tb - d, tb)
+                    if not _close(Wa, Wb + Wc, ulps, _scale(Wa, Wb, Wc) * max(1.0, span)):
+                        fails.append(("near_coincident_additivity", dict(s=ta, u=tb - d, t=tb, err=float((Wa - Wb - Wc).abs().max()))))
+                    if Ua is not None:
+                        rhs = Ub + Uc + d * Wb
+                        if not _close(Ua, rhs, ulps, _scale(Ua, Ub, Uc) * max(1.0, span)):
+                            fails.append(("near_coincident_chen_U", dict(s=ta, u=tb - d, t=tb, err=float((Ua - rhs).abs().max()))))
             for s, u, t in triples(pts, n_triples, rnd):
                 W1, U1, A1 = ask(s, u)
                 W2, U2, A2 = ask(u, t)
